@@ -182,6 +182,26 @@ theorem exception_interrupted_never_clean (env : Env) (d0 : Disk) (m : Meta) (cm
   exact interrupted_never_clean env d0 m cmds mode hmode w hrun k hk _
     (excState_crashState flags rm d0 w.trace n k hk1)
 
+/-- **The flag is cleared only by `close()`.**  Of all assignments to `attrs["writing"]` in
+    oqupy/process_tensor.py the only one that stores `False` is the one in `close()` (and the
+    only other one is `_create_file` storing `True`); in particular `compute_caps()` of a
+    file-backed process tensor writes no attribute. -/
+theorem flag_cleared_only_by_close :
+    (∀ p ∈ flags.writingAssignments, p.2 = false → p.1 = "close") ∧
+    (∀ p ∈ flags.writingAssignments, p.1 = "close" ∨ p.1 = "_create_file") ∧
+    flags.computeCapsTail = [] := by
+  decide
+
+/-- Hence a writer that calls `compute_caps()` — once, or again after further writes through
+    the still-open object — issues exactly the operations of its `set_*` calls: every theorem
+    above about `writerW` (crash points after `compute_caps()` and during later writes
+    included) applies to it. -/
+theorem compute_caps_keeps_flag (env : Env) (d0 : Disk) (mode : String) (m : Meta)
+    (segs : List (List Cmd)) (rest : List Cmd) (close : Bool) :
+    writerSegW flags env d0 mode m segs rest close =
+      writerW flags env d0 mode m (segs.flatten ++ rest) close :=
+  writerSegW_eq_writerW flags flag_cleared_only_by_close.2.2 env d0 mode m segs rest close
+
 /-! ### non-vacuity -/
 
 def m0 : Meta := ⟨2, some (mkRat 1 10), none, none, "pt", "d"⟩
